@@ -11,7 +11,7 @@ CLASSES = {0: "other", 1: "ptr-struct", 2: "slice", 3: "string-slice", 4: "ptr-s
 # which mismatch kinds speak about which property (Run_Encrypt.kind / Run_Crypto.kind)
 RELEVANT = {
     "C09": {"KErrMissing", "KErrSpurious", "KConsumed", "KPanic", "KLeak", "KOp", "KCanary", "KSpecLeak"},
-    "C10": {"KSame", "KOver", "KShape", "KNonStr", "KType", "KMeta", "KMutated", "KUnexp", "KSpecShape", "KPanic"},
+    "C10": {"KSame", "KOver", "KShape", "KNonStr", "KType", "KMeta", "KMutated", "KAliased", "KUnexp", "KSpecShape", "KPanic"},
     "C16": {"CKTriple", "CKFrame", "CKRoundTrip", "CKHmac", "CKDeterminism", "CKErr", "CKConsumed", "CKPanic", "CKState", "CKAtomic"},
 }
 WHAT = {
@@ -30,6 +30,7 @@ WHAT = {
     "KType": "dynamic type of the forwarded payload differs from the input's",
     "KMeta": "event type / creation time / formatted data were not preserved, or no new event was made",
     "KMutated": "the event handed to Process was modified",
+    "KAliased": "the forwarded event shares data with the event handed to Process: what a later node writes to it shows in the original",
     "KUnexp": "the value of an unexported struct field is not preserved in the forwarded copy",
     "KSpecShape": "the forwarded payload violates the shape_preserved specification evaluated on the observation alone",
     "CKTriple": "a value was produced under another (key, salt, info) than the key in force (or no candidate reproduces it)",
@@ -58,7 +59,7 @@ ASSUMPTIONS = {
             "payloads range over the shape grammar G of DESIGN 5.C09 (Encrypt.v type v); IgnoreTypes, structpb.Struct payloads, struct payloads passed by value, "
             "named string types (json.Number, type T string) are not among the kinds the filter supports: it leaves them alone, also under a class tag; the model carries them as non-string values that must be preserved", "struct payloads passed by value are compared with the model (and snapshot-checked for C10) but are outside no_leak (their own strings cannot be set); []*string, arrays, strings held in interface{} fields / []interface{} elements, pointer tags that go through anything but maps are outside G; a Taggable map DIRECTLY as a value of an untagged map is swept as an untagged map (modelled; its tags are not honoured); Filter.IgnoreTypes is outside the model: where the rule applies only the input-side oracles are evaluated",
             "with every operation overridden to none Process returns the event untouched before looking at the payload kind, so a rotation payload is then forwarded (C10's clause wins over C09's)"],
-    "C10": ["'the original is untouched' is not expressible in the heap-free model: it is tied dynamically (deep snapshot of the input event before / after Process on every case) - partial",
+    "C10": ["'the original is untouched' is not expressible in the heap-free model: it is tied dynamically on every case - deep snapshot of the input event before / after Process (KMutated), and again after the forwarded event has been rewritten from top to bottom, Formatted included (KAliased: the copy shares nothing with the original) - partial",
             "copystructure (deep copy that zeroes unexported fields) is modelled by Encrypt.copyz, validated by the correspondence",
             "a zero / nil payload with a missing wrapper and an encrypting configuration yields an error, not the same event (the wrapper check comes first)"],
     "C16": ["AEAD (AES-GCM of go-kms-wrapping), wrapper derivation, HKDF and HMAC-SHA256 are Section functions with the hypotheses dec k (enc k n m) = Some m; determinism is functionality",
